@@ -34,6 +34,10 @@ UsedOK(e, k) == IF e.chk = "sig" THEN NonceOf(BFromBE(e.d), BFromBE(SubSeq(e.sig
                 ELSE IF e.chk = "pt" THEN EncodePoint(MulN(k, G), FALSE) = e.pt
                 \* SM9: master public key [k]P1; C1 / R_A / R_B = [k]([H1(ID || hid)]P1 + Ppub-e); signature S = [(k - h) mod N] ds
                 ELSE IF e.chk = "g1pub" THEN e.pt = <<4>> \o S9!PtBytes(S9!G1Mul(S9!B32(k), S9!GenG1))
+                \* SM9 signing master public key [k]P2 (stored Jacobian form x, y, z over Fp2, compared after division by z)
+                ELSE IF e.chk = "g2pub" THEN S9!F2FromBytes(e.q.z) # S9!F2Zero
+                                             /\ LET zi == S9!F2Inv(S9!F2FromBytes(e.q.z)) IN
+                                                  << S9!F2Mul(S9!F2FromBytes(e.q.x), S9!F2Mul(zi, zi)), S9!F2Mul(S9!F2FromBytes(e.q.y), S9!F2Mul(zi, S9!F2Mul(zi, zi))) >> = S9!G2Mul(S9!B32(k), S9!GenG2)
                 ELSE IF e.chk = "c1" THEN e.pt = <<4>> \o S9!PtBytes(S9!G1Mul(S9!B32(k), S9!QB(S9!PpubE(BFromBE(e.ke)), e.idb, e.hid)))
                 ELSE IF e.chk = "s9sig" THEN LET ds == S9!ExtractSign(BFromBE(e.ks), e.idb) IN
                                              ds[1] = "ok" /\ e.pt = <<4>> \o S9!PtBytes(S9!G1Mul(S9!B32(BSubMod(k, BFromBE(e.h), SM9N)), ds[2]))
